@@ -119,7 +119,11 @@ def run(res):
         "rule": "keys-hist: per world a seed (all-zero, all-ff, random), a style (Native/Ldk alternating) and 1..4 distinct "
                 "channel ids (peer x dbid with dbid at 1, 2, 255, 256, 2^32-1, 2^32, 2^63, 2^64-1, same peer / same dbid "
                 "neighbours); every creation order (quick: 6 of the 24 orders for 4 ids) run on a fresh store with "
-                "restarts, setups, random extra channels, re-creation and observations interleaved; one Coq case per "
+                "restarts (the history ends with two more, through KVVPersister<MemoryKVVStore>), setups (half of them WITH a "
+                "permanent channel id that differs from id0), random extra channels, re-creation and observations "
+                "interleaved; every observation is made under EVERY id the channel has (id0 and the permanent id) and "
+                "includes the slot kind (stub / ready: once set up, ready under every id after any number of restarts), "
+                "and is compared with what (seed, id0) gave elsewhere; one Coq case per "
                 "(seed, style, id) with the secret keys, keys_id, commitment seed and the secrets of one number in 0..5 "
                 "plus three boundary numbers (6..65536, 2^47, 2^48-1 …, random 48-bit); non-trivial = observed in >= 2 "
                 "orders and with released secrets.  keys-adv: a real set-up channel advanced 4..7 holder commitments "
